@@ -61,7 +61,7 @@ func runCase(t *testing.T, c caseLines) []string {
 			}
 			body := bodyOf(req)
 			mu.Lock()
-			ord = append(ord, fmt.Sprintf("%d %s %d %s", req.Code(), lp.Hex(req.Token()), len(body), lp.Hex64(fnvBytes(body))))
+			ord = append(ord, fmt.Sprintf("%d %s %d %s %s", req.Code(), lp.Hex(req.Token()), len(body), lp.Hex64(fnvBytes(body)), optsOf(req)))
 			mu.Unlock()
 		}
 		var cc *tcpclient.Conn
@@ -167,6 +167,19 @@ func runCase(t *testing.T, c caseLines) []string {
 		synctest.Wait()
 	})
 	return out
+}
+
+// optsOf: the options the application is handed, in their order: `.` or `num:hex,num:hex...` ("complete" covers them)
+func optsOf(m *pool.Message) string {
+	os := m.Options()
+	if len(os) == 0 {
+		return "."
+	}
+	parts := make([]string, 0, len(os))
+	for _, o := range os {
+		parts = append(parts, fmt.Sprintf("%d:%s", o.ID, lp.Hex(o.Value)))
+	}
+	return strings.Join(parts, ",")
 }
 
 func bodyOf(m *pool.Message) []byte {
